@@ -466,6 +466,7 @@ def _battery(elf, stream, viol, log, probes, Meter, mem_limit):
     """The fixed enumeration battery: public API only, each line separately guarded so that one
     raising enumeration does not hide the next (raising *is* termination)."""
     state = {'budget': False}
+    failed = []          # whole-table enumerations that raised: issued once more at the end (a caller that retries after an error)
 
     def guard(name, fn):
         if state['budget']:
@@ -512,6 +513,8 @@ def _battery(elf, stream, viol, log, probes, Meter, mem_limit):
                 log.append((name, 'O4'))
             log.append((name, type(e).__name__))
             probes['battery_raised'] = probes.get('battery_raised', 0) + 1
+            if name in ('iter_sections', 'iter_segments', 'num_sections', 'num_segments'):
+                failed.append((name, fn))
             return None
 
     def drain(name, mk, touch=None):
@@ -571,6 +574,10 @@ def _battery(elf, stream, viol, log, probes, Meter, mem_limit):
             s = guard('get_segment', lambda i=i: elf.get_segment(i))
             if s is not None and i >= seen:
                 per_segment(s)
+    for name, fn in failed:
+        # the same object after the failure: a rejected header field must not be remembered as accepted
+        guard(name + '#retry', fn)
+        probes['battery_retries'] = probes.get('battery_retries', 0) + 1
     probes['battery_sections'] = len(secs)
     probes['battery_segments'] = len(segs)
 
